@@ -182,7 +182,7 @@ def fault_sites():
 
 def main(tier, seed):
     t0 = time.time()
-    depth = 3 if tier == "quick" else 5
+    depth = 3 if tier == "quick" else 4
     hs = [h for h in R.histories(depth)]
     subsets = [tuple(i for i in range(4) if mask >> i & 1) for mask in range(16)]
     allw = (0, 1, 2, 3)
